@@ -214,6 +214,42 @@ def el_text_dx_carriers(g):
             f'<tref href="#tr0" dx="{g.p()}" dy="{g.p()}"/><altGlyph href="#gl" x="{g.p()}" y="{g.p()}" dx="{g.p()}" dy="{g.p()}">c</altGlyph></text>')
 
 
+def el_use_centred(g):
+    # <use> of a shape that is defined by its centre: x / y are a plain translation
+    return (f'<defs><circle id="uc" cx="{g.p()}" cy="{g.p()}" r="{g.s()}"/><ellipse id="ue" cx="{g.p()}" cy="{g.p()}" rx="{g.s()}" ry="{g.s()}"/></defs>'
+            f'<use href="#uc" x="{g.p()}" y="{g.p()}"/><use href="#ue" x="{g.p()}" y="{g.p()}"/>')
+
+
+def el_line_partial(g):
+    # omitted line coordinates are 0 in SVG
+    return f'<line x1="{g.p()}" y1="{g.p()}" x2="{g.p()}"/><line x1="{g.p()}" x2="{g.p()}"/><line y2="{g.p()}"/><line x2="{g.p()}" y2="{g.p()}"/>'
+
+
+def el_text_forms(g):
+    # text with a transform of its own, and text positioned by coordinate lists / units / percentages
+    return (f'<text x="{g.p()}" y="{g.p()}" transform="translate({g.p()} {g.p()})">moved</text><text x="{g.p()}" y="{g.p()}" transform="rotate(30)">turned</text>'
+            f'<text x="1 2 3" y="4">abc</text><text x="5%" y="1em">pct</text><text x="{g.p()}" y="{g.p()}" rotate="10 20">r</text><text x="{g.p()}" y="{g.p()}" dx="1 2" dy="3">d</text>')
+
+
+def el_points_ws(g):
+    # any white space (also a lone tab or line break) and / or a comma separates numbers in a points list
+    return (f'<polyline points="{g.p()},{g.p()}\n{g.p()},{g.p()}\n{g.p()},{g.p()}"/><polygon points="{g.p()} {g.p()}\t{g.p()} {g.p()}\r\n{g.p()} {g.p()}"/>'
+            f'<polyline points="{g.p()}\t{g.p()}\t{g.p()}\t{g.p()}"/><polyline points=" {g.p()} , {g.p()} , {g.p()} , {g.p()} "/>')
+
+
+def el_fine_decimals(g):
+    # values that are not multiples of 1/1000: the output may round them to 3 decimals, nothing more
+    return ('<rect x="19.9996" y="30.0003" width="99.9997" height="10.0004"/><circle cx="20.0004" cy="29.9996" r="100.0002"/><ellipse cx="99.9997" cy="0.0004" rx="9.9996" ry="40.00049"/>'
+            '<line x1="1000.0003" y1="-19.9996" x2="-30.0004" y2="0.12345"/><use href="#fd" x="69.9996" y="-0.0004"/><image href="a.png" x="50.0001" y="60.0002" width="70.0003" height="79.9997"/>'
+            '<defs><rect id="fd" width="1" height="1"/></defs><rect x="1.23456" y="7.00049" width="2.9995" height="3.0005"/>')
+
+
+def el_comment_text(g):
+    # character data around comments and child elements stays where it is
+    return (f'<text x="{g.p()}" y="{g.p()}">one<!-- note -->two<tspan dy="{g.p()}">three</tspan>four</text><desc>alpha<!-- c -->beta</desc>'
+            f'<g><!-- lead --><title>t1</title><rect width="{g.s()}" height="{g.s()}"/><!-- trail --></g><text x="{g.p()}" y="{g.p()}"><tspan>a</tspan> b <tspan>c</tspan></text>')
+
+
 def el_transforms(g):
     # the whole SVG 1.1 transform vocabulary, in its documented capitalisation, alone and in lists
     return (f'<rect width="{g.s()}" height="{g.s()}" transform="skewX({g.p()})"/><rect width="{g.s()}" height="{g.s()}" transform="skewY({g.p()}) translate({g.p()})"/>'
@@ -222,7 +258,7 @@ def el_transforms(g):
             f'<text x="{g.p()}" y="{g.p()}" transform="rotate({g.p()})">t</text><use href="#trf" x="{g.p()}" y="{g.p()}" transform="skewX({g.p()})"/><defs><rect id="trf" width="1" height="1"/></defs>')
 
 
-LEAF = {"mixed-units": el_mixed_units, "nonshape-attrs": el_nonshape_attrs, "text-dx-carriers": el_text_dx_carriers, "transforms": el_transforms, "partial": el_partial, "openclose": el_openclose, "use-partial": el_use_partial, "rect": el_rect, "rect0": el_rect0, "circle": el_circle, "ellipse": el_ellipse, "line": el_line, "polyline": el_polyline, "polygon": el_polygon, "path-abs": el_path_abs,
+LEAF = {"use-centred": el_use_centred, "line-partial": el_line_partial, "text-forms": el_text_forms, "points-ws": el_points_ws, "fine-decimals": el_fine_decimals, "comment-text": el_comment_text, "mixed-units": el_mixed_units, "nonshape-attrs": el_nonshape_attrs, "text-dx-carriers": el_text_dx_carriers, "transforms": el_transforms, "partial": el_partial, "openclose": el_openclose, "use-partial": el_use_partial, "rect": el_rect, "rect0": el_rect0, "circle": el_circle, "ellipse": el_ellipse, "line": el_line, "polyline": el_polyline, "polygon": el_polygon, "path-abs": el_path_abs,
         "path-rel": el_path_rel, "path-arc": el_path_arc, "text": el_text, "text-tspan": el_text_tspan, "use": el_use, "image": el_image, "foreignObject": el_foreign,
         "linearGradient": el_lingrad, "radialGradient": el_radgrad, "marker": el_marker, "clipPath": el_clip, "mask": el_mask, "pattern": el_pattern, "filter": el_filter, "symbol": el_symbol,
         "title": el_title, "units": el_units, "style": el_style}
@@ -237,7 +273,7 @@ def templates(tier, seed):
         for w in WRAP:
             tds.append(dict(fam="wrapped", items=[k], wrap=[w], root="svg"))
     rnd = random.Random(77 + (seed if tier == "quick" else 0))
-    names = list(LEAF)
+    names = [n for n in LEAF if n not in ("use-centred", "line-partial")]      # (kinds with an open finding stay out of the mixes: their role would hide the rest)
     for i in range(200 if tier == "quick" else 1200):
         items = rnd.sample(names, rnd.randint(2, 4))
         wraps = [rnd.choice(list(WRAP)) for _ in range(rnd.randint(0, 2))]
@@ -293,10 +329,14 @@ def build(td, wrong=False):
             obls.append(Obl("root-additions-only-documented", PASS if added <= {"version", "width", "height", "viewBox"} else FAIL, ground=True, note=str(sorted(added))))
             for a, v in re_.attrib.items():
                 obls.append(Obl(f"root.{a}-verbatim", PASS if ro.get(a) == v else FAIL, ground=True, note=f"{ro.get(a)!r} vs {v!r}"))
-        obls += compare_outputs(o, e, wrong=wrong, skip_root=rooted)
+        obls += compare_outputs(o, e, wrong=wrong, skip_root=rooted, ground_tol=Fraction(501, 1000000))
         return obls
     name = f"{td['fam']}/{'+'.join(td['items'])}/{'+'.join(td.get('wrap', []))}/{td['root']}"
     role = "C04/" + td["fam"]
     if not doc.startswith("<svg") and "<svg" in doc:
         role = "C04/nested-svg-in-fragment"     # role signature for known-finding matching
+    elif "use-centred" in td["items"]:
+        role = "C04/use-of-centred-shape"
+    elif "line-partial" in td["items"]:
+        role = "C04/line-single-coordinate"
     return Template(name, doc, g.vars, check, family=td["fam"], role=role, cap=6)
